@@ -151,7 +151,7 @@ class Record:
 
     def __eq__(self, other):
         if not isinstance(other, Record):
-            return False
+            return NotImplemented
 
         return self._pack(excluded_fields=IGNORE_FIELDS_FOR_COMPARISON) == other._pack(
             excluded_fields=IGNORE_FIELDS_FOR_COMPARISON
